@@ -119,6 +119,34 @@ static int e_error(int code, size_t line, size_t column, const UChar *text, size
     flush_ws(); fprintf(lg, " @er %d", code); return 0; }
 
 /* one parse; returns the log text (caller frees) */
+/* which of the three syntax callbacks are registered: bit 0 whitespace, bit 1 keyword, bit 2 data name (7 = all, the normal runs) */
+static int cbmask = 7;
+
+/* the log with the events of the callbacks NOT in `mask` removed (events are " @xx …" up to the next " @") */
+static char *filter_log(const char *log, int mask) {
+    size_t n = strlen(log);
+    char *out = (char *) malloc(n + 1), *o = out;
+    const char *p = log;
+    int lastws = 0;
+    while (*p) {
+        const char *q = strstr(p + 1, " @");
+        size_t len = q ? (size_t) (q - p) : strlen(p);
+        int keep = 1;
+        if (strncmp(p, " @ws", 4) == 0) keep = mask & 1;
+        else if (strncmp(p, " @kw", 4) == 0) keep = mask & 2;
+        else if (strncmp(p, " @dn", 4) == 0) keep = mask & 4;
+        if (keep) {
+            /* whitespace is logged when the next event is logged: two runs of it around a removed event arrive as one */
+            if (strncmp(p, " @ws ", 5) == 0 && lastws) { memcpy(o, p + 5, len - 5); o += len - 5; }
+            else { memcpy(o, p, len); o += len; }
+            lastws = (strncmp(p, " @ws ", 5) == 0);
+        }
+        p += len;
+    }
+    *o = 0;
+    return out;
+}
+
 static char *run(const char *bytes, size_t nbytes, cif_tp **target, int *rc, long *calls) {
     struct cif_parse_opts_s *opts = NULL;
     cif_handler_tp h = { h_cif_start, h_cif_end, h_block_start, h_block_end, h_frame_start, h_frame_end,
@@ -130,9 +158,9 @@ static char *run(const char *bytes, size_t nbytes, cif_tp **target, int *rc, lon
     lg = open_memstream(&text, &size);
     if (cif_parse_options_create(&opts) != CIF_OK) { fclose(lg); *rc = -99; return text; }
     opts->handler = &h;
-    opts->whitespace_callback = s_whitespace;
-    opts->keyword_callback = s_keyword;
-    opts->dataname_callback = s_dataname;
+    opts->whitespace_callback = (cbmask & 1) ? s_whitespace : NULL;
+    opts->keyword_callback = (cbmask & 2) ? s_keyword : NULL;
+    opts->dataname_callback = (cbmask & 4) ? s_dataname : NULL;
     opts->error_callback = e_error;
     opts->default_encoding_name = "UTF-8";
     in = fmemopen((void *) bytes, nbytes ? nbytes : 1, "rb");
@@ -190,6 +218,19 @@ static void handle(int argc, char **argv) {
     if (cif) { out_dump(cif); cif_destroy(cif); }
     text = run(bytes, (size_t) nbytes, NULL, &rc, &calls);
     OUT(" N rc=%d n=%ld log=%s", rc, calls, text ? text : "");
+    /* C15: each syntax callback is independent of whether the OTHERS are registered — the same parse with only a subset of the three
+       registered (rotating with the request) must deliver exactly the full log without the events of the missing ones, and the same
+       result; a difference is printed (the model never prints it) */
+    {
+        int mask = (int) ((nbytes + (size_t) nprog * 3) % 7);      /* 0 … 6: every proper subset */
+        int rc2; long calls2;
+        char *want = filter_log(text ? text : "", mask), *got;
+        cbmask = mask;
+        got = run(bytes, (size_t) nbytes, NULL, &rc2, &calls2);
+        cbmask = 7;
+        if (rc2 != rc || calls2 != calls || strcmp(got ? got : "", want) != 0) OUT(" !SUBSET-CALLBACKS-DIFFER mask=%d rc=%d log=%s", mask, rc2, got ? got : "");
+        free(got); free(want);
+    }
     free(text);
     free(bytes);
     free(wsbuf); wsbuf = NULL; wscap = 0; wslen = 0;
